@@ -1,6 +1,6 @@
 (* E1 codec, C02: the allocation accounted by the model, for every descriptor, registry and nesting budget f:
-     alloc <= (1 + srate t + f * DA) * len + scst t + sslk t + f * DE          for inputs of len <= L bytes,
-   DA = RM + 2 CM + 238 + 7 L and DE = SM + 2 CM + 145 + 65535 * 88, where srate / scst / sslk are static measures of the
+     alloc <= (1 + srate t + (f+1) * DA) * len + scst t + sslk t + (f+1) * DE     (f = nesting levels, ua.MaxNestingLevel),
+   DA = RM + 2 CM + 1101 and DE = SM + 2 CM + 145, where srate / scst / sslk are static measures of the
    descriptor (element slots per consumed byte, pointer targets, slack) and RM, CM, SM bound them over the descriptors
    that can be entered one nesting level further down (Variant element types, extension object bodies). *)
 From Coq Require Import NArith ZArith List Bool Lia ZifyN ZifyNat ZifyBool.
@@ -46,12 +46,12 @@ Section Main.
   Hypothesis Hvar : forall tid, entry_ok (variant_ty tid) = true.
   Hypothesis Hxml : entry_ok xml_body_ty = true.
 
-  Definition DA : N := RM + 2 * CM + 238 + 7 * L.
-  Definition DE : N := SM + 2 * CM + 145 + KV.
+  Definition DA : N := RM + 2 * CM + 1101.
+  Definition DE : N := SM + 2 * CM + 145.
 
   Definition Inv (f : nat) : Prop :=
     forall t, tyok t = true ->
-      bnd L (1 + srate t + N.of_nat f * DA) (scst t) (sslk t + N.of_nat f * DE) (flag t) (decode reg f t).
+      bnd L (1 + srate t + N.of_nat (S f) * DA) (scst t) (sslk t + N.of_nat (S f) * DE) (flag t) (decode reg f t).
 
   Lemma leb_add : forall m1 m2, Nat.leb 1 (m1 + m2) = Nat.leb 1 m1 || Nat.leb 1 m2.
   Proof. intros [|m1] [|m2]; reflexivity. Qed.
@@ -110,19 +110,23 @@ Section Main.
     apply andb_true_iff in H2. destruct H2 as [H2 H3]. rewrite H1, H3. split; [reflexivity|exact H2].
   Qed.
 
-  Theorem inv_all : forall f, Inv f.
+  Definition level_custom (rec : ty -> dec val) (allow : bool) (c : custom) : dec val :=
+    if nested c && negb allow then bind (tick (csize c)) (fun _ => fail EOther) else dec_custom reg rec c.
+
+  (* one nesting level, given the bound of the hand-written decoders of that level *)
+  Lemma level_inv : forall rec allow XA XE,
+    (forall c, bnd L (1 + XA) 0 XE true (level_custom rec allow c)) ->
+    forall t, tyok t = true ->
+      bnd L (1 + srate t + XA) (scst t) (sslk t + XE) (flag t) (dec_level reg rec allow t).
   Proof.
-    induction f as [|f IHf]; intros t Ht; [intros bs _; exact I|].
-    set (XA := N.of_nat (S f) * DA). set (XE := N.of_nat (S f) * DE).
-    assert (Hstep : N.of_nat (S f) * DA = N.of_nat f * DA + DA /\ N.of_nat (S f) * DE = N.of_nat f * DE + DE) by lia.
-    revert Ht. induction t using ty_ind'; intros Ht; cbn [decode].
+    intros rec allow XA XE Hcust t. induction t using ty_ind'; intros Ht; cbn [dec_level].
     - (* bool *)
       eapply bnd_mono with (s := true || false); [apply (bnd_bind L _ _ _ 0 0); [apply read_byte_bnd|intros b; apply bnd_ret]|apply N.le_refl|apply N.le_refl|apply N.le_refl|auto].
     - eapply bnd_mono with (s := Nat.leb 1 w || false); [apply (bnd_bind L _ _ _ 0 0); [destruct s; [apply read_i_bnd|apply read_u_bnd]|intros b; apply bnd_ret]|apply N.le_refl|apply N.le_refl|apply N.le_refl|].
       unfold flag. cbn [minsize]. rewrite orb_false_r. auto.
     - eapply bnd_mono with (s := Nat.leb 1 w || false); [apply (bnd_bind L _ _ _ 0 0); [apply read_u_bnd|intros b; apply bnd_ret]|apply N.le_refl|apply N.le_refl|apply N.le_refl|].
       unfold flag. cbn [minsize]. rewrite orb_false_r. auto.
-    - eapply bnd_mono with (s := true || false); [apply (bnd_bind L _ _ (1 + srate TString + N.of_nat (S f) * DA) 0 0); [apply read_string_bnd; lia|intros b; apply bnd_ret]|apply N.le_refl|apply N.le_refl|apply N.le_refl|auto].
+    - eapply bnd_mono with (s := true || false); [apply (bnd_bind L _ _ (1 + srate TString + XA) 0 0); [apply read_string_bnd; lia|intros b; apply bnd_ret]|apply N.le_refl|apply N.le_refl|apply N.le_refl|auto].
     - eapply bnd_mono with (s := true || false); [apply (bnd_bind L _ _ _ 0 0); [apply read_time_bnd|intros b; apply bnd_ret]|apply N.le_refl|apply N.le_refl|apply N.le_refl|auto].
     - apply dec_bytes_bnd.
     - (* slice *)
@@ -136,54 +140,71 @@ Section Main.
         rewrite H2, andb_true_r. destruct t; try discriminate; try reflexivity; exact H1. }
       specialize (IHt Hte). unfold dec_ptr.
       assert (Hgo : bnd L (1 + srate (TPtr t) + XA) (scst (TPtr t)) (sslk (TPtr t) + XE) (flag (TPtr t))
-                      (bind (tick (tsize t)) (fun _ => bind (decode reg (S f) t) (fun v => ret (VPtr (Some v)))))).
+                      (bind (tick (tsize t)) (fun _ => bind (dec_level reg rec allow t) (fun v => ret (VPtr (Some v)))))).
       { cbn [srate scst sslk]. unfold flag. cbn [minsize]. fold (flag t).
         eapply bnd_mono with (c := tsize t + (scst t + 0)) (s := false || (flag t || false));
           [|apply N.le_refl|lia|apply N.le_refl|rewrite orb_false_r; auto].
         apply (bnd_bind L); [apply bnd_tick|]. intros _. apply (bnd_bind L); [exact IHt|]. intros v. apply bnd_ret. }
       destruct t; try exact Hgo; (eapply bnd_mono; [apply bnd_panic|apply N.le_refl|apply N.le_0_l|apply N.le_refl|auto]).
     - (* struct *)
-      assert (Hfs : Forall (fun t => bnd L (1 + srate t + XA) (scst t) (sslk t + XE) (flag t) (decode reg (S f) t)) fs).
+      assert (Hfs : Forall (fun t => bnd L (1 + srate t + XA) (scst t) (sslk t + XE) (flag t) (dec_level reg rec allow t)) fs).
       { apply Forall_forall. intros t Hin. rewrite Forall_forall in H. apply H; [exact Hin|].
         unfold tyok in *. cbn [ptr_ok slices_ok] in Ht. apply andb_true_iff in Ht. destruct Ht as [H1 H2].
         rewrite forallb_forall in H1, H2. rewrite (H1 t Hin), (H2 t Hin). reflexivity. }
-      pose proof (fields_bnd XA XE (decode reg (S f)) fs Hfs) as Hb.
-      change ((fix dec_ty (t : ty) : dec val := _) ) with (decode reg (S f)) || idtac.
+      pose proof (fields_bnd XA XE (dec_level reg rec allow) fs Hfs) as Hb.
+      change ((fix dec_ty (t : ty) : dec val := _) ) with (dec_level reg rec allow) || idtac.
       eapply bnd_mono with (c := scst (TStruct fs) + 0) (s := flag (TStruct fs) || false);
         [|apply N.le_refl|lia|apply N.le_refl|rewrite orb_false_r; auto].
       apply (bnd_bind L); [exact Hb|]. intros vs. apply bnd_ret.
     - (* hand-written codecs *)
-      set (ar := 1 + RM + N.of_nat f * DA). set (er := SM + N.of_nat f * DE).
-      assert (Hrec : forall t', entry_ok t' = true -> bnd L ar CM er (Nat.leb 1 (minsize t')) (decode reg f t')).
-      { intros t' Hok. destruct (entry_facts t' Hok) as [H0 [H1 [H2 H3]]].
-        eapply bnd_mono; [apply (IHf t' H0)|unfold ar; lia|exact H2|unfold er; lia|auto]. }
-      assert (Har : 1 <= ar) by (unfold ar; lia).
-      assert (Hc : bnd L (ar + CM + 92 + 7 * L) (145 + CM) (er + CM + KV) true (dec_custom reg (decode reg f) c)).
-      { destruct c; cbn [dec_custom].
-        - eapply bnd_mono; [apply (dec_variant_bnd L (decode reg f) ar CM er (fun t' => entry_ok t' = true) Hrec Har Hvar)|apply N.le_refl|lia|apply N.le_refl|auto].
-        - eapply bnd_mono; [apply (dec_datavalue_bnd L (decode reg f) ar CM er (fun t' => entry_ok t' = true) Hrec Har); apply entry_custom|lia|lia|lia|auto].
-        - eapply bnd_mono; [apply (dec_diag_bnd L (decode reg f) ar CM er (fun t' => entry_ok t' = true) Hrec Har); apply entry_custom|lia|lia|lia|auto].
-        - eapply bnd_mono; [apply (dec_loctext_bnd L ar er Har)|lia|lia|lia|auto].
-        - eapply bnd_mono; [apply (dec_nodeid_bnd L ar er)|lia|lia|lia|auto].
-        - eapply bnd_mono; [apply (dec_expnodeid_bnd L ar er Har)|lia|lia|lia|auto].
-        - eapply bnd_mono; [apply (dec_extobj_bnd L reg (decode reg f) ar CM er (fun t0 => entry_ok t0 = true) Hrec Har Hvar Hxml lookup_entry)|lia|lia|lia|auto].
-        - eapply bnd_mono; [apply (dec_guid_bnd L ar er)|lia|lia|lia|auto]. }
-      pose proof (bnd_absorb L _ _ _ _ _ Hc) as Ha.
-      assert (HDA : DA = RM + 2 * CM + 238 + 7 * L) by reflexivity.
-      assert (HDE : DE = SM + 2 * CM + 145 + KV) by reflexivity.
-      destruct Hstep as [Hs1 Hs2].
-      eapply bnd_mono; [exact Ha|cbn [srate]; unfold ar; lia|apply N.le_refl|cbn [sslk]; unfold er; lia|auto].
+      eapply bnd_mono; [exact (Hcust c)|cbn [srate]; lia|apply N.le_refl|cbn [sslk]; lia|auto].
     Unshelve. all: try exact false. all: try exact 0. all: try exact 0%Z.
+  Qed.
+
+  (* the hand-written decoders of one level over a decoder rec for what is nested further down *)
+  Lemma customs_inv : forall rec ar er, 1 <= ar ->
+    (forall t', entry_ok t' = true -> bnd L ar CM er (Nat.leb 1 (minsize t')) (rec t')) ->
+    forall c, bnd L (ar + 2 * CM + 1101) 0 (er + 2 * CM + 145) true (dec_custom reg rec c).
+  Proof.
+    intros rec ar er Har Hrec c.
+    assert (Hc : bnd L (ar + CM + 956) (145 + CM) (er + CM) true (dec_custom reg rec c)).
+    { destruct c; cbn [dec_custom].
+      - eapply bnd_mono; [apply (dec_variant_bnd L rec ar CM er (fun t' => entry_ok t' = true) Hrec Har Hvar)|apply N.le_refl|lia|apply N.le_refl|auto].
+      - eapply bnd_mono; [apply (dec_datavalue_bnd L rec ar CM er (fun t' => entry_ok t' = true) Hrec Har); apply entry_custom|lia|lia|lia|auto].
+      - eapply bnd_mono; [apply (dec_diag_bnd L rec ar CM er (fun t' => entry_ok t' = true) Hrec Har); apply entry_custom|lia|lia|lia|auto].
+      - eapply bnd_mono; [apply (dec_loctext_bnd L ar er Har)|lia|lia|lia|auto].
+      - eapply bnd_mono; [apply (dec_nodeid_bnd L ar er)|lia|lia|lia|auto].
+      - eapply bnd_mono; [apply (dec_expnodeid_bnd L ar er Har)|lia|lia|lia|auto].
+      - eapply bnd_mono; [apply (dec_extobj_bnd L reg rec ar CM er (fun t0 => entry_ok t0 = true) Hrec Har Hvar Hxml lookup_entry)|lia|lia|lia|auto].
+      - eapply bnd_mono; [apply (dec_guid_bnd L ar er)|lia|lia|lia|auto]. }
+    pose proof (bnd_absorb L _ _ _ _ _ Hc) as Ha.
+    eapply bnd_mono; [exact Ha|lia|apply N.le_refl|lia|auto].
+  Qed.
+
+  Theorem inv_all : forall f, Inv f.
+  Proof.
+    assert (HDA : DA = RM + 2 * CM + 1101) by reflexivity.
+    assert (HDE : DE = SM + 2 * CM + 145) by reflexivity.
+    induction f as [|f IHf]; intros t Ht; cbn [decode].
+    - apply level_inv; [|exact Ht]. intros c. unfold level_custom. destruct (nested c) eqn:En; cbn [andb negb].
+      + intros bs _. unfold bnd_at, bind, tick, fail. cbn [add_al].
+        assert (csize c <= 80) by (destruct c; cbn; lia). lia.
+      + eapply bnd_mono; [apply (customs_inv (fun _ => fail EOther) 1 0 (N.le_refl _))|lia|apply N.le_refl|lia|auto].
+        intros t' _ bs _. unfold bnd_at, fail. apply N.le_0_l.
+    - apply level_inv; [|exact Ht]. intros c. unfold level_custom. rewrite andb_false_r.
+      eapply bnd_mono; [apply (customs_inv (decode reg f) (1 + RM + N.of_nat (S f) * DA) (SM + N.of_nat (S f) * DE)); [lia|]|lia|apply N.le_refl|lia|auto].
+      intros t' Hok. destruct (entry_facts t' Hok) as [H0 [H1 [H2 H3]]].
+      eapply bnd_mono; [apply (IHf t' H0)|lia|exact H2|lia|auto].
   Qed.
 
   (* the bound, as a number *)
   Theorem alloc_bound : forall f t bs, tyok t = true -> ln bs <= L ->
-    res_alloc (decode reg f t bs) <= (1 + srate t + N.of_nat f * DA) * ln bs + scst t + sslk t + N.of_nat f * DE.
+    res_alloc (decode reg f t bs) <= (1 + srate t + N.of_nat (S f) * DA) * ln bs + scst t + sslk t + N.of_nat (S f) * DE.
   Proof.
     intros f t bs Ht HL. pose proof (inv_all f t Ht bs HL) as H. unfold bnd_at in H.
     destruct (decode reg f t bs) as [v rest al|err al|al|]; cbn [res_alloc]; [|lia|lia|lia].
     destruct H as [H1 H2].
-    pose proof (N.mul_le_mono_l (ln bs - ln rest) (ln bs) (1 + srate t + N.of_nat f * DA) ltac:(lia)). lia.
+    pose proof (N.mul_le_mono_l (ln bs - ln rest) (ln bs) (1 + srate t + N.of_nat (S f) * DA) ltac:(lia)). lia.
   Qed.
 End Main.
 
